@@ -19,8 +19,8 @@ inductive Atom where
   | inject (ctx : CmdCtx) (wd : Word) (pos : Nat)
   /-- one file redirection (local analysis only) -/
   | redir (op target cwd : String)
-  /-- a raw text handed to the `$(`/backtick scanner -/
-  | text (s : Option String) (cwd : String) (remote : Bool)
+  /-- a raw text handed to the `$(`/backtick scanner; `ps`: process substitutions are looked for as well -/
+  | text (ps : Bool) (s : Option String) (cwd : String) (remote : Bool)
   /-- a node kind the analyzer does not know -/
   | unknown (kind : String)
 
@@ -38,17 +38,17 @@ def atomDecisions (w : World) (rec : Rec) (h : HelpTables) : Atom → List Decis
   | .proper words baseIdx cwd remote => properDecisions w rec h words baseIdx cwd remote
   | .inject ctx wd pos => injectionRisk w ctx wd pos
   | .redir op target cwd => redirectDecision w op target cwd
-  | .text s cwd remote => scanArg rec s cwd remote
+  | .text ps s cwd remote => scanArg rec ps s cwd remote
   | .unknown k => [⟨.ask, "unrecognized construct: " ++ k⟩]
 
 /-- the raw texts of the expansion kinds that only carry text -/
 def expansionAtoms (wd : Word) (p : Part) (cwd : String) (remote : Bool) : List Atom :=
   match p with
-  | .param name _ arg => [.text (some name) cwd remote, .text arg cwd remote]
-  | .paramLen name => [.text (some name) cwd remote]
-  | .paramIndirect name _ arg => [.text (some name) cwd remote, .text arg cwd remote]
-  | .arith _ => (arithTexts wd.value).map fun t => .text (some t) cwd remote
-  | .arithDeprecated expr => [.text (some expr) cwd remote]
+  | .param name _ arg => [.text true (some name) cwd remote, .text true arg cwd remote]
+  | .paramLen name => [.text true (some name) cwd remote]
+  | .paramIndirect name _ arg => [.text true (some name) cwd remote, .text true arg cwd remote]
+  | .arith _ => (arithTexts wd.value).map fun t => .text false (some t) cwd remote
+  | .arithDeprecated expr => [.text false (some expr) cwd remote]
   | _ => []
 
 /-- the part of a world the *shape* of the flattening depends on -/
@@ -81,7 +81,7 @@ def flat : Node → String → Bool → List Atom
   | .whileN _ c b rs, cwd, remote => flat c cwd remote ++ flat b cwd remote ++ flatRedirects rs cwd remote
   | .forN _ ws b rs, cwd, remote => flat b cwd remote ++ flatWords ws cwd remote ++ flatRedirects rs cwd remote
   | .forArith i c s b rs, cwd, remote =>
-    flat b cwd remote ++ [.text (some i) cwd remote, .text (some c) cwd remote, .text (some s) cwd remote]
+    flat b cwd remote ++ [.text false (some i) cwd remote, .text false (some c) cwd remote, .text false (some s) cwd remote]
       ++ flatRedirects rs cwd remote
   | .selectN _ ws b rs, cwd, remote => flat b cwd remote ++ flatWords ws cwd remote ++ flatRedirects rs cwd remote
   | .caseN wd pats rs, cwd, remote =>
@@ -95,7 +95,7 @@ def flat : Node → String → Bool → List Atom
   | .condExpr b rs, cwd, remote => flatOptCond b cwd remote ++ flatRedirects rs cwd remote
   | .arithCmd e raw rs, cwd, remote =>
     (match raw with
-     | some t => [.text (some t) cwd remote]
+     | some t => [.text false (some t) cwd remote]
      | none => flatOptArith e cwd remote) ++ flatRedirects rs cwd remote
   | .comment, _, _ => []
   | .empty, _, _ => []
@@ -146,11 +146,9 @@ def flatWordParts (wd : Word) : List Part → String → Bool → List Atom
 def flatWord : Word → String → Bool → List Atom
   | .mk v ps, cwd, remote => flatWordParts (.mk v ps) ps cwd remote
 
-def flatCondOperand : Word → String → Bool → List Atom
+def flatCondOperand (regex : Bool) : Word → String → Bool → List Atom
   | .mk v ps, cwd, remote =>
-    if !ps.isEmpty then flatWordParts (.mk v ps) ps cwd remote
-    else if Py.hasChar v '\'' then []
-    else [.text (some v) cwd remote]
+    flatWordParts (.mk v ps) ps cwd remote ++ (if condRescan v ps regex then [.text true (some v) cwd remote] else [])
 
 def flatWords : List Word → String → Bool → List Atom
   | [], _, _ => []
@@ -164,7 +162,7 @@ def flatRedirects : List Redir → String → Bool → List Atom
   | [], _, _ => []
   | r :: rs, cwd, remote =>
     (match r with
-     | .heredoc quoted content => if !quoted then [.text (some content) cwd remote] else []
+     | .heredoc quoted content => if !quoted then [.text false (some content) cwd remote] else []
      | .redirect op tgt =>
        match tgt with
        | some t => flatWord t cwd remote ++ (if remote then [] else [.redir op (wordValue t) cwd])
@@ -175,11 +173,11 @@ def flatRedirects : List Redir → String → Bool → List Atom
 def flatCasePats : List CasePat → String → Bool → List Atom
   | [], _, _ => []
   | .mk pat body :: ps, cwd, remote =>
-    [.text (some pat) cwd remote] ++ flatOptNode body cwd remote ++ flatCasePats ps cwd remote
+    [.text true (some pat) cwd remote] ++ flatOptNode body cwd remote ++ flatCasePats ps cwd remote
 
 def flatCond : Cond → String → Bool → List Atom
-  | .unary _ o, cwd, remote => flatCondOperand o cwd remote
-  | .binary _ l r, cwd, remote => flatCondOperand l cwd remote ++ flatCondOperand r cwd remote
+  | .unary _ o, cwd, remote => flatCondOperand false o cwd remote
+  | .binary op l r, cwd, remote => flatCondOperand false l cwd remote ++ flatCondOperand (op == "=~") r cwd remote
   | .and l r, cwd, remote => flatCond l cwd remote ++ flatCond r cwd remote
   | .or l r, cwd, remote => flatCond l cwd remote ++ flatCond r cwd remote
   | .not o, cwd, remote => flatCond o cwd remote
